@@ -9,8 +9,8 @@ each method branch by branch; the property theorems say they coincide with the l
 operations the property names (`filter`/`take`, stable sort, permutation, partition).
 `Store` puts them behind set names so that the in-place and the copying form of an
 operation can be told apart: a population of agents with mutable integer attributes, all
-registered with one model and strongly held (weak references play no role here, see C04),
-and the AgentSets the program has made so far.
+registered with one model and held by the program until `kill` (death *during* an operation
+is C04's subject), and the AgentSets the program has made so far.
 
 `select(at_most=<float f ≤ 1.0>)`: the code computes `int(len(self) * f)` on IEEE doubles.
 The model takes the resulting *count* (`AtMost.count k`); the driver computes `k` with
@@ -34,6 +34,105 @@ def selectGo {α} (p : α → Bool) (atMost : Option Nat) : List α → Nat → 
 def sortL {α} (key : α → Int) (asc : Bool) (l : List α) : List α :=
   l.mergeSort (fun a b => if asc then decide (key a ≤ key b) else decide (key b ≤ key a))
 
+/-! ### the methods `AgentSet` inherits from `collections.abc.Set` / `MutableSet` / `Sequence`
+
+`AgentSet` defines `__contains__`, `__iter__`, `__len__`, `add`, `discard`, `__getitem__` and
+`_from_iterable(it) = AgentSet(it, random=self.random)` (an ordered de-duplication that carries the
+set's generator); everything below is the mixin code of CPython's `_collections_abc.py` on top of them. -/
+section mixins
+variable {α : Type} [DecidableEq α]
+
+/-- `Set.__or__` (= `__ror__`): `self._from_iterable(e for s in (self, other) for e in s)` -/
+def unionL (l m : List α) : List α := dedup (l ++ m)
+
+/-- `Set.__and__` (= `__rand__`): `self._from_iterable(value for value in other if value in self)` —
+    it iterates *other*, so the result is in other's order -/
+def interL (l m : List α) : List α := dedup (m.filter (fun x => x ∈ l))
+
+/-- `Set.__sub__`: `self._from_iterable(value for value in self if value not in other)`; an `other`
+    that is not a Set is first made one (`_from_iterable(other)`), which only matters through membership -/
+def diffL (l m : List α) : List α := dedup (l.filter (fun x => x ∉ dedup m))
+
+/-- `Set.__xor__` (= `__rxor__`): `(self - other) | (other - self)` (a non-Set `other` made a Set first) -/
+def xorL (l m : List α) : List α := unionL (diffL l m) (diffL (dedup m) l)
+
+/-- `Set.__le__`: `if len(self) > len(other): return False; for elem in self: if elem not in other: return False; return True` -/
+def leL (l m : List α) : Bool := if m.length < l.length then false else l.all (fun x => x ∈ m)
+
+/-- `Set.__ge__`: `if len(self) < len(other): return False; for elem in other: if elem not in self: …` -/
+def geL (l m : List α) : Bool := if l.length < m.length then false else m.all (fun x => x ∈ l)
+
+/-- `Set.__lt__`: `len(self) < len(other) and self.__le__(other)` -/
+def ltL (l m : List α) : Bool := decide (l.length < m.length) && leL l m
+
+/-- `Set.__gt__`: `len(self) > len(other) and self.__ge__(other)` -/
+def gtL (l m : List α) : Bool := decide (m.length < l.length) && geL l m
+
+/-- `Set.__eq__`: `len(self) == len(other) and self.__le__(other)` (`!=` is its negation) -/
+def eqL (l m : List α) : Bool := decide (l.length = m.length) && leL l m
+
+/-- `Set.isdisjoint`: `for value in other: if value in self: return False; return True` -/
+def disjointL (l m : List α) : Bool := m.all (fun x => x ∉ l)
+
+/-- `MutableSet.pop`: `it = iter(self); value = next(it)` (`StopIteration` → `KeyError`);
+    `self.discard(value); return value` — the *first* member -/
+def popL : List α → Option (α × List α)
+  | [] => none
+  | a :: rest => some (a, rest)
+
+/-- `MutableSet.clear`: `try: while True: self.pop() except KeyError: pass` -/
+def clearL (l : List α) : List α :=
+  go l.length l
+where
+  go : Nat → List α → List α
+    | 0, l => l
+    | f + 1, l => match popL l with | none => l | some (_, rest) => go f rest
+
+/-- `MutableSet.__ior__`: `for value in it: self.add(value)` -/
+def iorL (l m : List α) : List α := m.foldl addKey l
+
+/-- the loop `for value in it: self.discard(value)` -/
+def discardAll (l m : List α) : List α := m.foldl (fun acc x => acc.erase x) l
+
+/-- `MutableSet.__iand__`: `for value in (self - it): self.discard(value)` — keeps *self's* order -/
+def iandL (l m : List α) : List α := discardAll l (diffL l m)
+
+/-- `MutableSet.__isub__`: `if it is self: self.clear() else: for value in it: self.discard(value)` -/
+def isubL (l m : List α) (same : Bool) : List α := if same then clearL l else discardAll l m
+
+/-- `MutableSet.__ixor__`: `if it is self: self.clear()`, else (a non-Set `it` made a Set first)
+    `for value in it: if value in self: self.discard(value) else: self.add(value)` -/
+def ixorL (l m : List α) (same : Bool) : List α :=
+  if same then clearL l
+  else (dedup m).foldl (fun acc v => if v ∈ acc then acc.erase v else addKey acc v) l
+
+/-- `not (stop is None or i < stop)` -/
+def stopHit (stop : Option Int) (i : Nat) : Bool :=
+  match stop with | some s => decide (s ≤ (i : Int)) | none => false
+
+/-- the loop of `Sequence.index`: `while stop is None or i < stop: try: v = self[i] except IndexError:
+    break; if v is value: return i; i += 1` then `raise ValueError` (`none`) -/
+def indexGo (v : α) (stop : Option Int) : List α → Nat → Option Nat
+  | [], _ => none
+  | a :: rest, i =>
+    if stopHit stop i then none
+    else if a = v then some i else indexGo v stop rest (i + 1)
+
+/-- `Sequence.index(value, start=0, stop=None)`:
+    `if start < 0: start = max(len(self) + start, 0)`; `if stop is not None and stop < 0: stop += len(self)` -/
+def indexL (l : List α) (v : α) (start : Int) (stop : Option Int) : Option Nat :=
+  let n : Int := l.length
+  let s0 : Nat := (if start < 0 then max (n + start) 0 else start).toNat
+  indexGo v (stop.map fun s => if s < 0 then s + n else s) (l.drop s0) s0
+
+/-- `Sequence.count`: `sum(1 for v in self if v is value or v == value)` -/
+def countL (l : List α) (v : α) : Nat := l.count v
+
+/-- `Sequence.__reversed__`: `for i in reversed(range(len(self))): yield self[i]` -/
+def reversedL (l : List α) : List α := l.reverse
+
+end mixins
+
 /-! ### the store -/
 
 structure Agent where
@@ -56,6 +155,7 @@ structure Store where
   pop : List Agent              -- index = id
   sets : List (List Nat)        -- AgentSets made so far (member ids in order)
   rng : Rng                     -- model.random, shared by every set
+  dead : List Nat := []         -- agents that have died (removed from the model, no reference left in the program)
 deriving Repr, DecidableEq, Inhabited
 
 inductive Err where | attr | key | index | value
@@ -211,5 +311,79 @@ def remove (st : Store) (s : Nat) (a : Nat) : Except Err Store :=
 
 def contains (st : Store) (s : Nat) (a : Nat) : Bool := (st.get s).contains a
 def len (st : Store) (s : Nat) : Nat := (st.get s).length
+
+/-- `agent.remove()` followed by the program dropping its last reference: the agent dies, and — every
+    AgentSet holding only weak references — it is gone from *every* set at once (original and derived alike);
+    the other members keep their order (`WeakKeyDictionary`'s removal callback deletes the one key) -/
+def kill (st : Store) (a : Nat) : Store :=
+  { st with sets := st.sets.map (fun l => l.erase a), dead := a :: st.dead }
+
+/-! ### set algebra, comparisons, `pop` / `clear`, `index` / `count` / `reversed` on the store -/
+
+/-- the right-hand operand: another AgentSet of the store, or a plain iterable of agents
+    (a list or generator, duplicates allowed) -/
+inductive Other where
+  | set (k : Nat)
+  | list (ids : List Nat)
+deriving Repr, DecidableEq
+
+def Store.other (st : Store) : Other → List Nat
+  | .set k => st.get k
+  | .list ids => ids
+
+/-- `|`, `&`, `-`, `^`, and `list - agentset` (`__rsub__`; the other reflected forms are the
+    same functions: `__ror__ = __or__`, `__rand__ = __and__`, `__rxor__ = __xor__`) -/
+inductive SetOp where | or | and | sub | xor | rsub
+deriving Repr, DecidableEq
+
+def SetOp.eval (l m : List Nat) : SetOp → List Nat
+  | .or => unionL l m
+  | .and => interL l m
+  | .sub => diffL l m
+  | .xor => xorL l m
+  | .rsub => diffL (dedup m) l     -- `other = self._from_iterable(other)`, then the members of `other` not in self
+
+/-- `a | b`, `a & b`, `a - b`, `a ^ b`, `[…] - a`: always a new AgentSet built by `_from_iterable` -/
+def setop (st : Store) (op : SetOp) (s : Nat) (o : Other) : Store × Nat :=
+  st.put s false (op.eval (st.get s) (st.other o))
+
+/-- `a |= b`, `a &= b`, `a -= b`, `a ^= b`: mutate `a` through `add` / `discard`, return `a` -/
+def isetopL (l m : List Nat) (same : Bool) : SetOp → List Nat
+  | .or => iorL l m
+  | .and => iandL l m
+  | .sub => isubL l m same
+  | .xor => ixorL l m same
+  | .rsub => l                     -- (no in-place reflected form; the driver does not offer it)
+
+def isetop (st : Store) (op : SetOp) (s : Nat) (o : Other) : Store :=
+  { st with sets := st.sets.set s (isetopL (st.get s) (st.other o) (decide (o = .set s)) op) }
+
+inductive CmpOp where | le | lt | ge | gt | eq | ne
+deriving Repr, DecidableEq
+
+/-- `a <= b`, `a < b`, `a >= b`, `a > b`, `a == b`, `a != b` between two AgentSets -/
+def cmp (st : Store) (op : CmpOp) (s t : Nat) : Bool :=
+  let l := st.get s
+  let m := st.get t
+  match op with
+  | .le => leL l m | .lt => ltL l m | .ge => geL l m | .gt => gtL l m | .eq => eqL l m | .ne => !eqL l m
+
+def isdisjoint (st : Store) (s : Nat) (o : Other) : Bool := disjointL (st.get s) (st.other o)
+
+/-- `AgentSet.pop()` (inherited): removes and returns the first member; `KeyError` on an empty set -/
+def pop (st : Store) (s : Nat) : Except Err (Store × Nat) :=
+  match popL (st.get s) with
+  | none => .error .key
+  | some (a, rest) => .ok ({ st with sets := st.sets.set s rest }, a)
+
+/-- `AgentSet.clear()` (inherited) -/
+def clear (st : Store) (s : Nat) : Store := { st with sets := st.sets.set s (clearL (st.get s)) }
+
+/-- `agentset.index(agent[, start[, stop]])`: `ValueError` if not found in the range -/
+def index (st : Store) (s : Nat) (a : Nat) (start : Int) (stop : Option Int) : Except Err Nat :=
+  match indexL (st.get s) a start stop with | some i => .ok i | none => .error .value
+
+def count (st : Store) (s : Nat) (a : Nat) : Nat := countL (st.get s) a
+def reversed (st : Store) (s : Nat) : List Nat := reversedL (st.get s)
 
 end Mesa.ASet
